@@ -34,6 +34,7 @@ type Io = (ByteWriter, ByteReader);
 #[cfg(feature = "verif")]
 pub mod verif_hooks {
     pub use crate::agent::verif_hooks as agent;
+    pub use crate::backpressure::verif_hooks as backpressure;
     pub mod timeout_coord {
         pub use crate::timeout_coord::{
             agent_timeout_coordinator, downlink_timeout_coordinator, Receiver, VoteResult, Voter,
